@@ -129,6 +129,11 @@ FIXED = [
     ("`begin_keywords \"1800-2005\t \"\nmodule m; wire checker; endmodule\n`end_keywords\n", True),
     ("`begin_keywords \"1364-2001\"\n`begin_keywords \"1800-2005 \"\nmodule m; reg logic; endmodule\n`end_keywords\n`end_keywords\n", False),
     ("`begin_keywords \"1364-2001\"\n`begin_keywords \"1800-2005 \"\n`end_keywords\nmodule m; reg logic; endmodule\n`end_keywords\nmodule n; reg logic; endmodule\n", False),
+    # a keywords directive in text that is NOT compiled (an untaken branch), or one whose region was closed: no effect on what follows
+    ("`ifdef UNDEF_\n`begin_keywords \"1364-2001\"\n`endif\nmodule m; wire logic; endmodule\n", False),
+    ("`ifndef UNDEF_\n`else\n`begin_keywords \"1364-1995\"\n`endif\nmodule m; reg signed [3:0] x; wire logic; endmodule\n", False),
+    ("`ifdef UNDEF_\n`begin_keywords \"1364-2001\"\n`begin_keywords \"1364-2001\"\n`endif\nmodule m; endmodule\nmodule n; wire logic; endmodule\n", False),
+    ("`define OPENS `begin_keywords \"1364-2001\"\nmodule m; wire logic; endmodule\n", False),
     ("`resetall\nmodule module; endmodule\n", False), ("`define X 1\nmodule m; wire wire; endmodule\n", False),
     ("`timescale 1ns/1ps\n`celldefine\nmodule m; reg always; endmodule\n", False),
 ]
